@@ -49,13 +49,13 @@ def run_profile(cases, profile, env_extra=None, timeout=600):
             except ValueError: outs.append({'err': 'unparsable replay output', 'raw': l[:200]})
         i += len(lines)
         if i < len(cases) and len(lines) < len(chunk):
-            outs.append({'panic': f'process died (status {rc}) on this case'})
+            outs.append({'panic': f'process died (status {rc}) on this case'} if rc != 'timeout' else {'hang': f'no answer within {timeout}s'})
             i += 1
     return outs
 
-def run_cases(cases, profiles=('dev',), env_extra=None):
+def run_cases(cases, profiles=('dev',), env_extra=None, timeout=600):
     """returns [ {profile: output} per case ]"""
-    per = {p: run_profile(cases, p, env_extra) for p in profiles}
+    per = {p: run_profile(cases, p, env_extra, timeout) for p in profiles}
     return [{p: per[p][i] for p in profiles} for i in range(len(cases))]
 
 if __name__ == '__main__':
